@@ -320,9 +320,7 @@ def main(argv=None):
     deadline = time.time() + (a.budget or (60 if quick else 1200))
     n = 3000 if quick else 400000
     with common.Pool() as pool:
-        cases = [gen_case(a.seed * 1_000_000 + i) for i in range(n)]
-        for c in cases[:2]:
-            c["want_sample"] = True
+        cases = common.with_samples((gen_case(a.seed * 1_000_000 + i) for i in range(n)), 2)
         for case, res in pool.map(run_case, cases, deadline=deadline, chunksize=8):
             ev.add_run(res)
             for v in res["violations"]:
